@@ -54,7 +54,7 @@ def observe(b: Built, g):
     return alts, dist
 
 
-def check_spec(h: Harness, site: str, spec: Spec, b: Built, usable: bool = True):
+def check_spec(h: Harness, site: str, spec: Spec, b: Built, usable: bool = True, exact: bool = True):
     line_spec = gram.spec_sx(spec)
     try:
         with warnings.catch_warnings():
@@ -106,7 +106,8 @@ def check_spec(h: Harness, site: str, spec: Spec, b: Built, usable: bool = True)
     # level B: the implementation's own table solves the distance equations (hence is exact)
     h.holds(site, "distance-not-a-fixpoint", ["prop_fixpoint", line_spec, dist],
             f"distanceToTerminal is not a solution of the minimum-depth equations for {sx(line_spec)}", sx(line_spec))
-    check_exactness(h, site, spec, b, g)
+    if exact:   # (the enumeration oracle recurses once per depth level: not for the 150-level chains)
+        check_exactness(h, site, spec, b, g)
     h.count(f"classes={len(spec.classes)}")
     h.count("productive" if g.get_min_tree_depth() < 1000000 else "unproductive")
     if spec.expansion:
@@ -228,10 +229,37 @@ CORPUS.append(Spec([gram.ClassSpec("A0", True, None), gram.ClassSpec("C1", False
                     gram.ClassSpec("C2", False, 0, [("f0", ("cls", 0)), ("f1", ("list", ("cls", 0)))], weight=1)], 0, [1, 2], expansion=True))
 
 
+def big_chains():
+    """dependency chains / cycles of 150 abstract symbols: the distance fixpoint and the recursion closure need many sweeps
+    (however the symbol set happens to be ordered)"""
+    C = gram.ClassSpec
+    out = []
+    n = 150
+    for cyc in (False, True):
+        for rev in (False, True):
+            classes = [C(f"A{i}", True, None) for i in range(n)]
+            considered = []
+            for i in range(n):
+                nxt = (i + 1) % n if cyc else i + 1
+                fields = [("f", ("cls", nxt))] if (cyc or i + 1 < n) else []
+                classes.append(C(f"P{i}", False, i, fields))
+                considered.append(n + i)
+            if cyc:   # one way out of the cycle, at its far end
+                classes.append(C("Leaf", False, n - 1, []))
+                considered.append(2 * n)
+            if rev:
+                considered.reverse()
+            out.append(gram.Spec(classes, 0, considered))
+    return out
+
+
 def run(h: Harness):
     rng = h.rng
     for spec in CORPUS:
         check_spec(h, "extract_grammar[corpus]", spec, gram.build(spec))
+    for spec in big_chains():
+        check_spec(h, "extract_grammar[corpus]", spec, gram.build(spec), usable=False, exact=False)
+        h.count("corpus:150-symbol-chains")
     for i in range(h.n(300, 6000)):
         exp = rng.random() < 0.2
         spec = (gram.productive_spec if rng.random() < 0.75 else gram.random_spec)(rng, max_classes=rng.choice([3, 4, 6, 8]), expansion=exp)
@@ -240,7 +268,12 @@ def run(h: Harness):
             # which must keep the depth-counting mode and everything else of the analysis
             for c in spec.classes:
                 if not c.abstract and rng.random() < 0.5:
-                    c.weight = rng.choice([1, 2, 3, 0.5])
+                    c.weight = rng.choice([1, 2, 3, 0.5, 0, 0.0])   # (0: a switched-off production is still a production)
+            # (a rule whose productions are ALL switched off cannot be normalised: out of the domain, see C19)
+            for a in range(len(spec.classes)):
+                kids = [c for c in spec.classes if c.parent == a]
+                if kids and all(c.weight is not None and c.weight == 0 for c in kids):
+                    kids[0].weight = 2
             h.count("weighted-spec" + ("-expansion" if exp else ""))
         b = gram.build(spec)
         check_spec(h, "extract_grammar", spec, b)
